@@ -1130,7 +1130,17 @@ fn run_case(pc: &ICase, stats: &mut Stats, genr: Option<(&mut Prng, usize)>) -> 
         if !snap.actors.contains_key(&op_from(&op)) {
             continue;
         }
-        let out = run_op(&w, &op, &snap);
+        // a panic of the VM itself (e.g. auto-creation over an id that is already taken) ends the history
+        let out = match std::panic::catch_unwind(std::panic::AssertUnwindSafe(|| run_op(&w, &op, &snap))) {
+            Ok(o) => o,
+            Err(p) => {
+                let msg = if let Some(s) = p.downcast_ref::<String>() { s.clone() } else if let Some(s) = p.downcast_ref::<&str>() { s.to_string() } else { "panic".to_string() };
+                ops_done.push(op.clone());
+                stats.op(kind(&op), 999);
+                fails.push(serde_json::json!({"class": "vm-panic", "step": i, "what": [msg], "case": ICase { ops: ops_done.clone() }}));
+                break;
+            }
+        };
         let post = snapshot(&w);
         stats.op(kind(&op), out.code);
         if out.code == 0 { acc = true } else { rej = true }
